@@ -206,6 +206,9 @@ func lineTable(q *s2.Polyline, f b6.Feature, st *stats) string {
 	switch geomKind(f) {
 	case "point":
 		p := f.(b6.Geometry).Point()
+		if len(*q) == 0 {
+			return "point 0" // nothing to project onto; the entry cannot be evaluated
+		}
 		proj, _ := q.Project(p)
 		return "point " + bit(proj.Distance(p) < tolerance, st)
 	case "path":
@@ -411,6 +414,13 @@ func (w *world) pairOps(c *hx.Ctx) {
 	f := w.feats[r.Intn(len(w.feats))]
 	wf := w.get(f)
 	var st stats
+	if r.Chance(1, 25) { // MightIntersect: Matches is constantly true
+		q := b6.MightIntersect{Region: s2.CapFromCenterAngle(w.anywhere(r), s1.Angle(w.R*unit(r)))}
+		ans := boolAns(func() bool { return q.Matches(wf, w.w) })
+		c.Op("might", ans)
+		c.Note("op:might")
+		return
+	}
 	switch r.Intn(7) {
 	case 0: // cells
 		n := 1 + r.Intn(4)
@@ -474,6 +484,9 @@ func (w *world) pairOps(c *hx.Ctx) {
 		note(c, "point", t, ans, st)
 	case 4: // polyline
 		n := 2 + r.Intn(4)
+		if r.Chance(1, 10) {
+			n = r.Intn(2) // a query polyline without vertices, or with a single one
+		}
 		pl := make(s2.Polyline, n)
 		for i := range pl {
 			if r.Bool() {
@@ -488,8 +501,11 @@ func (w *world) pairOps(c *hx.Ctx) {
 		q := b6.IntersectsPolyline{Polyline: &pl}
 		t := lineTable(&pl, wf, &st)
 		ans := boolAns(func() bool { return q.Matches(wf, w.w) })
-		c.Op("line "+t, ans)
+		c.Op(fmt.Sprintf("line n=%d %s", n, t), ans)
 		note(c, "line", t, ans, st)
+		if n < 2 {
+			c.Note(fmt.Sprintf("line:query-vertices=%d", n))
+		}
 	case 5: // multipolygon, 1-4 parts; the part that meets the feature is usually not the first
 		n := 1 + r.Intn(4)
 		mp := make(geometry.MultiPolygon, n)
@@ -652,13 +668,34 @@ func corpus(c *hx.Ctx) {
 		we := m.FindFeatureByID(e.id)
 		c.Op("cap "+capTable(cap2, we, &st), boolAns(func() bool { return q2.Matches(we, m) }))
 	}
+	// fixed (C05-empty-polyline-query): a query polyline without vertices against a point feature panicked
+	{
+		p := newPoint(r, 5, ll(51.005, 0.005), true)
+		m := ingest.NewBasicMutableWorld()
+		m.AddFeature(p.f)
+		wf := m.FindFeatureByID(p.id)
+		pl := s2.Polyline{}
+		q := b6.IntersectsPolyline{Polyline: &pl}
+		c.Op("line n=0 "+lineTable(&pl, wf, &st), boolAns(func() bool { return q.Matches(wf, m) }))
+	}
+	// fixed (C04-intersects-feature-without-geometry): a relation named by the query does not intersect itself
+	{
+		p := newPoint(r, 6, ll(51.005, 0.025), true)
+		rel := newRelation(r, 7, p.id)
+		m := ingest.NewBasicMutableWorld()
+		m.AddFeature(p.f)
+		m.AddFeature(rel.f)
+		wr := m.FindFeatureByID(rel.id)
+		q := b6.IntersectsFeature{ID: rel.id}
+		c.Op("feat 1 empty", boolAns(func() bool { return q.Matches(wr, m) }))
+	}
 	c.NonTrivial()
 }
 
 func main() {
 	hx.Main(hx.Family{
-		Name: "c05",
-		Rule: "cases 0,1,2 mod 4: a generated world (mutable or basic; 2-6 features: points, paths, star-shaped non-convex areas with holes and 1-4 polygons, occasionally a polygon without loops, relations; extent 0.6 m .. 6000 km) and 6 (query, feature) pairs: cells / cap / point / polyline / multipolygon (1-4 parts, the part that meets the feature usually not the first) / intersects-feature, queries aimed at vertices, interiors (off-centre, inside spikes and holes) and sub-millimetre neighbourhoods of the feature; the op carries the S2 primitive table, the answer is Go's Matches. cases 3 mod 4: 4 `pip` ops on an E7-integer star polygon (<= 550 m, |lat| <= 70, optional hole). non-trivial = a table with both true and false entries, or a pip case; distinct = by hash of the op text",
+		Name:     "c05",
+		Rule:     "cases 0,1,2 mod 4: a generated world (mutable or basic; 2-6 features: points, paths, star-shaped non-convex areas with holes and 1-4 polygons, occasionally a polygon without loops, relations; extent 0.6 m .. 6000 km) and 6 (query, feature) pairs: cells / cap / point / polyline / multipolygon (1-4 parts, the part that meets the feature usually not the first) / intersects-feature / might-intersect, query polylines with 0 or 1 vertex in 10 % of the polyline ops, queries aimed at vertices, interiors (off-centre, inside spikes and holes) and sub-millimetre neighbourhoods of the feature; the op carries the S2 primitive table, the answer is Go's Matches. cases 3 mod 4: 4 `pip` ops on an E7-integer star polygon (<= 550 m, |lat| <= 70, optional hole). non-trivial = a table with both true and false entries, or a pip case; distinct = by hash of the op text",
 		Quick:    2400,
 		Thorough: 60000,
 		Corpus:   corpus,
